@@ -104,7 +104,7 @@ open Hc.Handover in
 theorem hand_over_response_plaintext (strict : Bool) (ops : List Op) :
     (run true strict true ops).respEncrypted ≠ some true ∧
     ((run true strict true ops).cur = true → (run true strict true ops).respEncrypted = some false) := by
-  obtain ⟨h1, h2⟩ := inv_run strict ops
+  obtain ⟨h1, h2, _⟩ := inv_run strict ops
   refine ⟨h1, fun hc => ?_⟩
   cases hr : (run true strict true ops).respEncrypted with
   | none => rw [h2 hr] at hc; cases hc
@@ -116,7 +116,7 @@ open Hc.Handover in
 theorem hand_over_reads_decrypted (strict queue : Bool) (s : Handover.St)
     (h : (Handover.step true strict queue s .readDone).delivered = some false) (hd : s.delivered ≠ some false) :
     s.cur = false ∧ s.next = false := by
-  obtain ⟨cur, next, pending, resp, wire, del, aw, cl, fp, qd, eo, ed⟩ := s
+  obtain ⟨cur, next, pending, resp, wire, del, aw, cl, fp, qd, eo, ed, wr⟩ := s
   cases cl
   · simp only [Handover.step, Bool.false_eq_true, if_false, if_true] at h
     (repeat' split at h) <;> first
@@ -142,7 +142,8 @@ open Hc.Handover in
     and every event that was kept back has been written once the answer is out. -/
 theorem hand_over_events_wait_for_the_answer (strict : Bool) (ops : List Op) :
     (run true strict true ops).evDuring = false ∧
-    ((run true strict true ops).awaiting = false → (run true strict true ops).closed = false → (run true strict true ops).queued = 0) := by
+    ((run true strict true ops).awaiting = false → (run true strict true ops).writing = false →
+      (run true strict true ops).closed = false → (run true strict true ops).queued = 0) := by
   exact ⟨inv3_run strict ops, inv4_run strict ops⟩
 
 open Hc.Handover in
